@@ -251,7 +251,7 @@ def prune_cache(keep=150, min_age_s=6 * 3600):
 _lean_built = None
 
 
-def lean_build(force=False, targets=None):
+def lean_build(force=False, targets=None, timeout=3000):
     """Regenerate constants from /repo and build Lean targets.  Returns (ok, log).
     targets=None builds the whole library and every driver (setup); a check passes its own property
     module and drivers so that it is decided by its own proof obligations only."""
@@ -277,7 +277,7 @@ def lean_build(force=False, targets=None):
             targets = ["Cjet"] + ["drv_" + os.path.basename(f)[3:-5].lower()
                                   for f in sorted(glob.glob(os.path.join(LEAN, "Drv*.lean")))
                                   if os.path.exists(os.path.join(LEAN, "Cjet", "Drv", os.path.basename(f)[3:]))]
-        rc, out, err = sh(["lake", "build"] + targets, cwd=LEAN, timeout=3600)
+        rc, out, err = sh(["lake", "build"] + targets, cwd=LEAN, timeout=timeout)
         _lean_built = (rc == 0 and ext_ok, ext_log + out[-8000:] + err[-4000:])
     finally:
         fcntl.flock(lock, fcntl.LOCK_UN)
